@@ -31,6 +31,9 @@ pub fn step_budget(len: usize) -> u64 {
 pub fn mem_budget(len: usize) -> usize {
     16 * 1024 + 128 * len
 }
+/// Stack depth a decoding call may reach below the caller, whatever the input: the
+/// recursion of the supported types is bounded by the *type*, never by the input.
+pub const STACK_BUDGET: usize = 192 * 1024;
 
 // ---------------------------------------------------------------------------
 // drop monitor
@@ -270,14 +273,17 @@ pub fn check_input(cx: &Cx, rep: &mut Report, input: &[u8], only: Option<&str>) 
         }
         mon::steps_reset(step_budget(len));
         let sc = mon::AllocScope::begin();
+        let st = mon::StackScope::begin(STACK_BUDGET);
         let r = mon::guarded(|| f(&boxed));
+        let depth = st.end();
         let al = sc.end();
         let steps = mon::steps_read();
         mon::steps_reset(0);
         rep.evaluations += 1;
+        rep.max("max stack depth below the call (bytes)", depth as f64);
         match r {
             Err(p) => {
-                let kind = if p.is_step_limit() { "step-limit" } else { "panic" };
+                let kind = if p.is_step_limit() { "step-limit" } else if p.is_stack_limit() { "stack-depth" } else { "panic" };
                 fail(rep, name, kind, format!("{} at {}", p.message, p.location), input);
                 continue;
             }
@@ -369,13 +375,15 @@ fn check_call_sequence(rep: &mut Report, ops: &[(&'static str, Op)], seed: u64, 
         let before = d.position();
         mon::steps_reset(step_budget(len));
         let sc = mon::AllocScope::begin();
+        let st = mon::StackScope::begin(STACK_BUDGET);
         let r = mon::guarded(|| f(&mut d));
+        let _ = st.end();
         let al = sc.end();
         mon::steps_reset(0);
         rep.evaluations += 1;
         let after = d.position();
         let bad = match r {
-            Err(p) => Some((if p.is_step_limit() { "step-limit" } else { "panic" }, format!("{} at {}", p.message, p.location))),
+            Err(p) => Some((if p.is_step_limit() { "step-limit" } else if p.is_stack_limit() { "stack-depth" } else { "panic" }, format!("{} at {}", p.message, p.location))),
             Ok(ok) => {
                 if after > len.max(before) {
                     Some(("position", format!("cursor moved from {} to {} (input length {})", before, after, len)))
@@ -595,6 +603,34 @@ pub fn run(a: &Args, rep: &mut Report) {
             check_call_sequence(rep, &opsv, a.seed, i, &input);
             rep.max("max input length", input.len() as f64);
         }
+    }
+    // 3b. deep nesting families (chains of nested indefinite/definite containers, tag chains ...):
+    // work and memory must stay linear, the stack constant
+    {
+        let mut rng = Rng::derive("c02/nest", a.seed, 0, 0);
+        let mut fam = corpus::nesting_families(&mut rng, if a.thorough() { 20_000 } else { 4_000 });
+        // chains of directly nested tags / one-element arrays / one-entry maps, closed and cut short
+        for (name, unit) in [("tag-chain", &[0xc1u8][..]), ("tag24-chain", &[0xd8, 0x18]), ("array1-chain", &[0x81]), ("map1-chain", &[0xa1, 0x00]), ("tagged-array-chain", &[0xc2, 0x81])] {
+            for depth in [600usize, 5_000, if a.thorough() { 100_000 } else { 30_000 }] {
+                let mut b: Vec<u8> = Vec::with_capacity(depth * unit.len() + 1);
+                for _ in 0..depth {
+                    b.extend_from_slice(unit)
+                }
+                fam.push((format!("{}-{}-open", name, depth), b.clone()));
+                b.push(0x00);
+                fam.push((format!("{}-{}", name, depth), b));
+            }
+        }
+        let mut n = 0u64;
+        for (k, (name, b)) in fam.iter().enumerate() {
+            if a.mine(k as u64) && !(asan && b.len() > 20_000) {
+                mon::set_case(name.as_bytes());
+                check_input(&cx, rep, b, None);
+                n += 1;
+                mon::tick();
+            }
+        }
+        rep.count_n("deep nesting families", n);
     }
     // 4. a few large hostile inputs (declared sizes far above the input)
     if a.shard == 0 {
